@@ -1381,6 +1381,16 @@ func (b *Builder) V2ReviseAgainInBlock() bool {
 		}
 		rev := cur
 		rev.RevisionNumber++
+		if rapid.Bool().Draw(b.T, "payAgain") {
+			// the renter pays once more and the host risks more of what is left
+			r := ref.Big(cur.RenterOutput.Value)
+			d := new(big.Int).Quo(new(big.Int).Mul(r, big.NewInt(int64(rapid.IntRange(0, 1000).Draw(b.T, "payAgainShare")))), big.NewInt(1000))
+			rev.RenterOutput.Value = cur64(new(big.Int).Sub(r, d))
+			rev.HostOutput.Value = cur64(new(big.Int).Add(ref.Big(cur.HostOutput.Value), d))
+			m := ref.Big(cur.MissedHostValue)
+			dm := new(big.Int).Quo(new(big.Int).Mul(m, big.NewInt(int64(rapid.IntRange(0, 1000).Draw(b.T, "riskAgainShare")))), big.NewInt(1000))
+			rev.MissedHostValue = cur64(new(big.Int).Sub(m, dm))
+		}
 		if rapid.Bool().Draw(b.T, "rotateAgain") {
 			rev.HostPublicKey = Pub(rapid.IntRange(0, NumKeys-1).Draw(b.T, "rotHk"))
 		}
